@@ -107,8 +107,9 @@ def prop_module(prop_id: str):
 def make_program(prop_id: str, repo: str, overrides=None) -> Program:
     """The program model a property is decided on: log statements are stripped
     unless the property's module asks to keep them (KEEP_LOGGING)."""
-    keep = bool(getattr(prop_module(prop_id), "KEEP_LOGGING", False))
-    return Program(repo, overrides=overrides, strip_logging=not keep)
+    mod = prop_module(prop_id)
+    keep = bool(getattr(mod, "KEEP_LOGGING", False))
+    return Program(repo, overrides=overrides, strip_logging=not keep, inline_temps=not bool(getattr(mod, "KEEP_TEMPS", False)))
 
 
 def analyse(prop_id: str, repo: str, tier: str = "quick", prog: Program = None, seed: int = 0) -> Ctx:
